@@ -76,6 +76,11 @@ CLAIMED = {
    note="Relative proof: correct rounding of strconv's kernels is assumed (A-strconv); that the number registers (value of the first 19 digits, digit count, point position, saturating exponent) denote the literal is positional notation by definition; that the decision structure rounds correctly given correct kernels is the published argument, not machine-checked. Reference copy: /verif/ref/strconv (verbatim files + SHA256SUMS). Concrete replays compare ReadFloat64 bit for bit with strconv.ParseFloat on a corpus of boundary literals and 3M pseudo-random ones.",
    tech="contract-based deductive verification: ground table obligations, relational (product-program) equivalence of go/ssa bodies with a pinned reference, simulation against a specification transducer with number registers, postconditions over pure callee result functions; z3/cvc5",
    ref="DESIGN.md section 6 (C04)"),
+ "C08": dict(
+   text="Proof of the per-call half of the property, which is what a contract can state: every offset a reader reports on success is the end offset of one and the same specification run. For ReadUint64/32, ReadInt64/32, ReadInt, ReadUint, ReadFloat64, ReadBool, ReadNull, ReadString, ReadStringBytes, SkipValue and (on accepted input) SkipValueFast the real code is proved to satisfy `err == nil ==> accepts(data) && p == endof(data)` over the master JSON transducer run (the loops of the real readers carry the induction over digit runs; the generated machines are simulated state by state); HandleArrayValues / HandleObjectValues are proved to call the handler exactly at member starts with data[p:] starting at the member, to resume at the exact end the handler reports or to validate the member themselves after 0, and to return the container's end offset.",
+   note="NOT machine-checked: the induction over decoders written against the API (M-compose: a quantification over programs), and the 'reconstructs the same value tree' half (no tree-valued contracts, see C03). Re-proves the offset clauses of C02, C04, C05, C06, C07, C11, C13 in one check (slow: dominated by the handler machines).",
+   tech="contract-based deductive verification: simulation of every reader against one specification transducer run, cut-point VCs over go/ssa, handler interface contract; z3/cvc5",
+   ref="DESIGN.md section 6 (C08)"),
  "C11": dict(
    text="Proof for every input: if the specification accepts (which by the C02 contract, re-proved inside this check, is exactly when SkipValue succeeds, with p the spec's end offset) then skipValueFast/SkipValueFast return a nil error and the same end offset. The real skipValueFast (65 cut points x 256 bytes) is simulated against the master transducer under the hypothesis accepts(data): its stack height is related to the number of open frames of the same kind as the outermost container (two counters added to the spec run), its return states to the kind of the outermost container, strings are stepped over in lock step with the spec's string states, and the nesting limit of 10000 cannot trigger because the same-kind depth is bounded by the total depth.",
    note="The counters' meaning (number of array/object frames on the spec stack, at least 1 for the kind of the bottom frame) is a lemma about the specification proved by induction (seven base/step obligations with explicit unfoldings). Nothing is claimed on malformed input (C10 covers safety there).",
@@ -90,8 +95,7 @@ CLAIMED = {
 
 NOT_BUILT = "in reach per DESIGN.md section 6 but its check is not built yet - not claimed"
 NA = {
- "C03": NOT_BUILT,
- "C08": NOT_BUILT,
+ "C03": "per-call contracts on the generic reader (ValueReader) are not built; the statement is equality of interface-typed value trees with encoding/json's, which needs inductive datatypes for map[string]interface{} / []interface{} values that the quantifier-free bit-vector/array VC generator does not have (DESIGN.md section 6, C03). Only allocation bounds of ReadObject/ReadArray are under contract (C20)",
  "C15": "needs a full functional contract of generic decoding for arbitrary prior reader state (incl. what sync.Pool.Get may return) and ownership of maps/slices reachable through interface values; not expressible in a quantifier-free bit-vector/array VC generator without inductive datatypes or separation logic (DESIGN.md section 6, C15)",
  "C17": "the functional content is utf8.DecodeRune / string([]rune) / string(rune) runtime intrinsics whose semantics would have to be assumed in exactly the form of the property, and the statement is sequence-valued and, for the slice/map helpers, an induction over interface-typed trees; no contract within reach decides it (DESIGN.md section 6, C17)",
 }
